@@ -20,11 +20,11 @@ RULES = {
           "API only uses the guarded helpers cursor_up/down/forward",
     "R2": "cursor-row balance: with the cursor row tracked as a polynomial over traced symbols (render height, padding margins, max(pad height, rendered height)): (a) every iteration of the frame loop has net row displacement 0 (every frame over the same cells); (b) after the first frame the cursor returns to the top line of the render region; (c) on normal completion the cursor ends on the last line of the (padded) region, so that draw()'s final newline leaves it on the line immediately below; the iterator's cache holds unpadded frames",
     "R3": "validate before writing: the size errors are raised before the first output effect; the width is checked unconditionally, the height unless "
-          "scrolling is allowed (and always for animations)",
+          "scrolling is allowed (and always for animations); decided on a finite domain: the traced raise condition of _init_render_ equals `check_size and (w > tw or (not allow_scroll and h > th))` over sizes {1,2,3}^4 and all flags, tuples ordered lexicographically",
     "R4": "final state: Renderable.draw's clean-up writes exactly one newline, then SHOW_CURSOR under the hide condition, then flushes; the old API's "
           "clean-up resets attributes and shows the cursor; the newline and the flush are unconditional",
     "R5": "per-frame clearing is decided consistently: KittyImage._clear_frame clears explicitly exactly for the versions for which _display_animated does not "
-          "use blend=False (complementary version predicates); animation frames are always drawn on the z-index `_clear_frame` deletes (unconditional `kwargs['z_index'] = <that value>`)",
+          "use blend=False (complementary version predicates); animation frames are always drawn on the z-index `_clear_frame` deletes (unconditional `kwargs['z_index'] = <that value>`); decided by evaluation over kitty versions: _clear_frame returns true exactly when it cleared, and exactly one of {explicit clear, blend=False} applies per version",
 }
 RN, CM, IT, KT = "renderable/_renderable.py", "image/common.py", "image/iterm2.py", "image/kitty.py"
 
